@@ -1221,6 +1221,14 @@ class _Ctx:
                 kwargs["**"] = self.expr(k.value, env)
             else:
                 kwargs[k.arg] = self.expr(k.value, env)
+        # f(*itertools.chain(a, b)) is f(*a, *b)
+        flat_ = []
+        for x in args:
+            if is_t(x, "star") and is_t(x[1], "call") and x[1][1] in (G("itertools.chain"), G("chain")) and not x[1][3]:
+                flat_.extend(("star", y) for y in x[1][2])
+            else:
+                flat_.append(x)
+        args = flat_
         res = self.call_value(f, args, kwargs)
         if is_t(res, "call") and getattr(self, "withs", None):
             # calls evaluated inside `with ctx:` blocks (through inlined helpers too): rules about the ambient context of a call read this table
@@ -1436,6 +1444,10 @@ class _Ctx:
             return args[0]
         if name in ("functools.partial", "partial") and args and "**" not in kwargs:
             return ("partial", args[0], tuple(args[1:]), tuple(sorted(kwargs.items())))
+        if short == "split_list" and name.startswith("jax") and len(args) == 2 and is_t(args[1], "list") and len(args[1][1]) == 1:
+            # jax.util.split_list(xs, [n]) is (xs[:n], xs[n:])
+            n_ = args[1][1][0]
+            return mk_tuple((("index", args[0], ("sliceobj", C(None), n_, C(None))), ("index", args[0], ("sliceobj", n_, C(None), C(None)))))
         if short == "reversed" and len(args) == 1:
             return ("reversed", args[0])
         if short == "isinstance" and len(args) == 2:
